@@ -336,6 +336,7 @@ type LoopSpec struct {
 }
 
 type FuncSpec struct {
+	Hints     bool // emit array-store instantiation hints while encoding this function
 	Key       string
 	Pkg       string
 	Params    []string // receiver first
@@ -412,7 +413,7 @@ func parseFunParams(s string) []FunParam {
 var modsets = map[string]string{}
 
 var clauseKW = map[string]bool{"fun": true, "modset": true, "pred": true, "func": true, "lemma": true, "props": true, "requires": true,
-	"modifies": true, "allocs": true, "ensures": true, "loop": true, "inline": true, "trusted": true, "assert": true, "case": true, "locks": true, "locked": true, "guarded": true}
+	"modifies": true, "allocs": true, "ensures": true, "loop": true, "inline": true, "trusted": true, "assert": true, "case": true, "locks": true, "locked": true, "guarded": true, "hints": true}
 
 func (P *Program) loadContracts() error {
 	for name, pkg := range P.Pkgs {
@@ -636,6 +637,8 @@ func (P *Program) loadContractFile(pkg, file string) error {
 			switch rc.kw {
 			case "props":
 				cur.Props = append(cur.Props, strings.Fields(rc.text)...)
+			case "hints":
+				cur.Hints = true
 			case "locks":
 				cur.Locks = true
 			case "locked":
